@@ -11,6 +11,9 @@ CONSTANTS
   Family = "replayq"
   DropK1 = FALSE
   Queries <- MCQueries
+  FixEmptySnapshot = FALSE
+  FixBoolAdvance = FALSE
+  FixShouldMin = FALSE
   FirstAdvanceOK <- FirstAdvNoQ2
 INVARIANT ResultOK
 INVARIANT NoPanic
